@@ -9,7 +9,6 @@
 package main
 
 import (
-	"bytes"
 	"context"
 	"encoding/base64"
 	"fmt"
@@ -29,132 +28,13 @@ import (
 	"github.com/postalsys/muti-metroo/verifharness/vh"
 )
 
-type User struct {
-	Name string `json:"name"`
-	Pass string `json:"pass"`
-	Hash string `json:"hash"`
-}
-
-type AuthCfg struct {
-	Enabled bool   `json:"enabled"`
-	Users   []User `json:"users"`
-}
-
 type Case struct {
-	Cfg     AuthCfg             `json:"cfg"`
-	Session socksrun.Session    `json:"session"`
-	Plan    socksrun.DialPlan   `json:"plan"`
-	UDP     socksrun.Backend    `json:"udp"`
-	ICMP    socksrun.Backend    `json:"icmp"`
-	Obs     *socksrun.Observed  `json:"observed,omitempty"`
-}
-
-// matches is the monitor's reading of "credentials matching a configured
-// user": some configured user has that name and either a hash that bcrypt
-// accepts for the password, or no hash and exactly that non-empty password.
-func matches(cfg AuthCfg, u, p []byte) bool {
-	for _, usr := range cfg.Users {
-		if usr.Name != string(u) {
-			continue
-		}
-		if usr.Hash != "" {
-			if bcrypt.CompareHashAndPassword([]byte(usr.Hash), p) == nil {
-				return true
-			}
-		} else if usr.Pass != "" && usr.Pass == string(p) {
-			return true
-		}
-	}
-	return false
-}
-
-// presented extracts the RFC 1929 sub-negotiation that follows the greeting.
-func presented(in []byte) (u, p []byte, ok bool) {
-	if len(in) < 2 || in[0] != 5 {
-		return
-	}
-	n := int(in[1])
-	if len(in) < 2+n {
-		return
-	}
-	rest := in[2+n:]
-	if len(rest) < 2 || rest[0] != 1 {
-		return
-	}
-	ul := int(rest[1])
-	if len(rest) < 2+ul+1 {
-		return
-	}
-	pl := int(rest[2+ul])
-	if len(rest) < 3+ul+pl {
-		return
-	}
-	return rest[2 : 2+ul], rest[3+ul : 3+ul+pl], true
-}
-
-func coqUser(u User) string {
-	return fmt.Sprintf("(mkUser %s %s %s)", policy.CoqBytes([]byte(u.Name)), policy.CoqBytes([]byte(u.Pass)), policy.CoqBytes([]byte(u.Hash)))
-}
-
-func coqCfg(c AuthCfg) string {
-	var us []string
-	for _, u := range c.Users {
-		us = append(us, coqUser(u))
-	}
-	return fmt.Sprintf("(mkAuthCfg %s %s)", vh.CoqBool(c.Enabled), vh.CoqList(us))
-}
-
-// bcryptTable lists the (hash, password) pairs of this configuration that
-// bcrypt accepts for password p.
-func bcryptTable(c AuthCfg, p []byte) string {
-	var items []string
-	seen := map[string]bool{}
-	for _, u := range c.Users {
-		if u.Hash == "" || seen[u.Hash] {
-			continue
-		}
-		seen[u.Hash] = true
-		if bcrypt.CompareHashAndPassword([]byte(u.Hash), p) == nil {
-			items = append(items, fmt.Sprintf("(%s, %s)", policy.CoqBytes([]byte(u.Hash)), policy.CoqBytes(p)))
-		}
-	}
-	return vh.CoqList(items)
-}
-
-func coqWrites(ws [][]byte) string {
-	var items []string
-	for _, w := range ws {
-		items = append(items, policy.CoqBytes(w))
-	}
-	return vh.CoqList(items)
-}
-
-// coqExec canonicalises what the handler executed.
-func coqExec(o socksrun.Observed) (string, bool) {
-	n := len(o.Dials) + o.UDPCreates + len(o.ICMPCreates)
-	switch {
-	case n == 0:
-		return "XNone", true
-	case n > 1:
-		return "", false
-	case len(o.Dials) == 1:
-		host, port := socksrun.SplitDialAddress(o.Dials[0].Address)
-		var pn uint64
-		fmt.Sscan(port, &pn)
-		parsed := "None"
-		if ip := net.ParseIP(host); ip != nil {
-			if v4 := ip.To4(); v4 != nil {
-				parsed = "(Some " + policy.CoqBytes(v4) + ")"
-			} else {
-				parsed = "(Some " + policy.CoqBytes(ip.To16()) + ")"
-			}
-		}
-		return fmt.Sprintf("(XConnect %s %s %d%%N)", policy.CoqBytes([]byte(host)), parsed, pn), true
-	case o.UDPCreates == 1:
-		return "XUdp", true
-	default:
-		return "(XIcmp " + policy.CoqBytes(o.ICMPCreates[0]) + ")", true
-	}
+	Cfg     socksrun.AuthCfg   `json:"cfg"`
+	Session socksrun.Session   `json:"session"`
+	Plan    socksrun.DialPlan  `json:"plan"`
+	UDP     socksrun.Backend   `json:"udp"`
+	ICMP    socksrun.Backend   `json:"icmp"`
+	Obs     *socksrun.Observed `json:"observed,omitempty"`
 }
 
 type harness struct {
@@ -187,18 +67,18 @@ func (h *harness) monitor(k Case, o socksrun.Observed, where string) {
 	if len(o.Writes) > 0 && len(o.Writes[0]) == 2 {
 		method = int(o.Writes[0][1])
 	}
-	u, p, ok := presented(k.Session.Input)
+	u, p, ok := socksrun.Presented(k.Session.Input)
 	switch {
 	case method != 2:
 		c.Fail("served-without-authentication",
 			fmt.Sprintf("%s: authentication is enabled (users %s) but the handler selected method %#x and executed %s for a client that never authenticated", where, describeUsers(k.Cfg), method, what), k)
-	case !ok || !matches(k.Cfg, u, p):
+	case !ok || !k.Cfg.Matches(u, p):
 		c.Fail("served-with-invalid-credentials",
 			fmt.Sprintf("%s: authentication is enabled but %s was executed for credentials %q/%q that match no configured user (users %s)", where, what, u, p, describeUsers(k.Cfg)), k)
 	}
 }
 
-func describeUsers(c AuthCfg) string {
+func describeUsers(c socksrun.AuthCfg) string {
 	var parts []string
 	for _, u := range c.Users {
 		k := "unusable"
@@ -212,21 +92,11 @@ func describeUsers(c AuthCfg) string {
 	return "[" + strings.Join(parts, " ") + "]"
 }
 
-func applyCfg(cfg *config.Config, ac AuthCfg) {
-	cfg.SOCKS5.Enabled = true
-	cfg.SOCKS5.Address = "127.0.0.1:0"
-	cfg.SOCKS5.Auth.Enabled = ac.Enabled
-	for _, u := range ac.Users {
-		cfg.SOCKS5.Auth.Users = append(cfg.SOCKS5.Auth.Users, config.SOCKS5UserConfig{Username: u.Name, Password: u.Pass, PasswordHash: u.Hash})
-	}
-	cfg.HTTP.Enabled = false
-}
-
 // runConfig builds a real agent for the configuration and runs the sessions
 // through the handler its SOCKS5 server owns.
-func (h *harness) runConfig(ac AuthCfg, cases []Case) {
+func (h *harness) runConfig(ac socksrun.AuthCfg, cases []Case) {
 	c := h.c
-	a, cleanup, err := policy.NewAgent(func(cfg *config.Config) { applyCfg(cfg, ac) })
+	a, cleanup, err := policy.NewAgent(func(cfg *config.Config) { ac.Apply(cfg) })
 	if err != nil {
 		c.Fail("agent-new-failed", err.Error(), ac)
 		return
@@ -239,10 +109,6 @@ func (h *harness) runConfig(ac AuthCfg, cases []Case) {
 	}
 	hd := srv.VerifHandler()
 	methods := hd.VerifAuthMethods()
-	var ms []string
-	for _, m := range methods {
-		ms = append(ms, fmt.Sprintf("%d%%N", m))
-	}
 	// static monitor on the configuration: with authentication enabled the
 	// handler must not offer "no authentication"
 	if ac.Enabled {
@@ -266,21 +132,18 @@ func (h *harness) runConfig(ac AuthCfg, cases []Case) {
 		} else {
 			c.Count("session:stopped-silently")
 		}
-		ex, ok := coqExec(o)
+		line, ok := socksrun.CoqCase(ac, methods, k.Session.Input, k.Plan, k.UDP, k.ICMP, o)
 		if !ok {
 			c.Fail("more-than-one-command-executed", fmt.Sprintf("dials=%v udp=%d icmp=%d", o.Dials, o.UDPCreates, len(o.ICMPCreates)), k)
-			ex = "XNone"
 		}
-		_, p, _ := presented(k.Session.Input)
 		ko := k
 		ko.Obs = &o
 		c.Case(fmt.Sprintf("%s/%x/%s", cfgKind(ac), k.Session.Input, k.Plan.Kind), len(o.Writes) > 0, ko)
-		h.coq = append(h.coq, fmt.Sprintf("(mkCase %s %s %s %s %s %s %s\n   %s %s)", coqCfg(ac), vh.CoqList(ms), bcryptTable(ac, p),
-			k.Plan.Coq(), k.UDP.Coq(), k.ICMP.Coq(), policy.CoqBytes(k.Session.Input), coqWrites(o.Writes), ex))
+		h.coq = append(h.coq, line)
 	}
 }
 
-func cfgKind(ac AuthCfg) string {
+func cfgKind(ac socksrun.AuthCfg) string {
 	if !ac.Enabled {
 		return "auth-off"
 	}
@@ -310,15 +173,15 @@ func cfgKind(ac AuthCfg) string {
 // end to end on a started agent: real TCP listener and WebSocket listener
 
 type e2eCase struct {
-	Cfg   AuthCfg  `json:"cfg"`
-	Basic *[2]string `json:"basic,omitempty"`
-	Note  string   `json:"note"`
+	Cfg   socksrun.AuthCfg `json:"cfg"`
+	Basic *[2]string       `json:"basic,omitempty"`
+	Note  string           `json:"note"`
 }
 
-func (h *harness) runStarted(ac AuthCfg, sinkPort int, sink *policy.Sink) {
+func (h *harness) runStarted(ac socksrun.AuthCfg, sinkPort int, sink *policy.Sink) {
 	c := h.c
 	a, cleanup, err := policy.NewAgent(func(cfg *config.Config) {
-		applyCfg(cfg, ac)
+		ac.Apply(cfg)
 		cfg.SOCKS5.WebSocket.Enabled = true
 		cfg.SOCKS5.WebSocket.Address = "127.0.0.1:0"
 		cfg.SOCKS5.WebSocket.PlainText = true
@@ -393,7 +256,7 @@ func (h *harness) runStarted(ac AuthCfg, sinkPort int, sink *policy.Sink) {
 		c.Count(fmt.Sprintf("e2e:ws-status-%d", status))
 		var credsOK bool
 		if basic != nil {
-			credsOK = matches(ac, []byte(basic[0]), []byte(basic[1]))
+			credsOK = ac.Matches([]byte(basic[0]), []byte(basic[1]))
 		}
 		ec := e2eCase{Cfg: ac, Basic: basic, Note: "ws"}
 		if ac.Enabled && accepted && !credsOK {
@@ -411,7 +274,7 @@ func (h *harness) runStarted(ac AuthCfg, sinkPort int, sink *policy.Sink) {
 			b = fmt.Sprintf("(Some (%s, %s))", policy.CoqBytes([]byte(basic[0])), policy.CoqBytes([]byte(basic[1])))
 			pw = []byte(basic[1])
 		}
-		h.wcoq = append(h.wcoq, fmt.Sprintf("(%s, %s, %s, %s)", coqCfg(ac), bcryptTable(ac, pw), b, vh.CoqBool(accepted)))
+		h.wcoq = append(h.wcoq, fmt.Sprintf("(%s, %s, %s, %s)", ac.Coq(), ac.BcryptTable(pw), b, vh.CoqBool(accepted)))
 	}
 	try(nil)
 	try(&[2]string{"nobody", "nothing"})
@@ -444,40 +307,40 @@ func mkHash(pw string) string {
 	return string(h)
 }
 
-func configs(r *vh.Rand) []AuthCfg {
+func configs(r *vh.Rand) []socksrun.AuthCfg {
 	hAlice := mkHash("alice-secret")
 	hBob := mkHash("b")
-	fixed := []AuthCfg{
+	fixed := []socksrun.AuthCfg{
 		// the witnesses: authentication enabled, no usable user
 		{Enabled: true},
-		{Enabled: true, Users: []User{{Name: "ghost"}}},
-		{Enabled: true, Users: []User{{Name: "ghost"}, {Name: ""}, {Name: "ghost2", Pass: "", Hash: ""}}},
+		{Enabled: true, Users: []socksrun.User{{Name: "ghost"}}},
+		{Enabled: true, Users: []socksrun.User{{Name: "ghost"}, {Name: ""}, {Name: "ghost2", Pass: "", Hash: ""}}},
 		// usual configurations
 		{Enabled: false},
-		{Enabled: false, Users: []User{{Name: "alice", Pass: "pw"}}},
-		{Enabled: true, Users: []User{{Name: "alice", Pass: "pw"}}},
-		{Enabled: true, Users: []User{{Name: "alice", Hash: hAlice}}},
-		{Enabled: true, Users: []User{{Name: "alice", Pass: "pw"}, {Name: "bob", Hash: hBob}}},             // plaintext user dropped: a hashed user exists
-		{Enabled: true, Users: []User{{Name: "alice", Pass: "pw", Hash: hAlice}, {Name: "ghost"}}},         // hash wins over password
-		{Enabled: true, Users: []User{{Name: "alice", Pass: "one"}, {Name: "alice", Pass: "two"}}},         // duplicate name: last wins
-		{Enabled: true, Users: []User{{Name: "alice", Hash: hAlice}, {Name: "alice", Pass: "later-plain"}}}, // hashed map wins
-		{Enabled: true, Users: []User{{Name: "Alice", Pass: "pw"}, {Name: "alice ", Pass: "pw2"}, {Name: "al\x00ice", Pass: "x"}}},
+		{Enabled: false, Users: []socksrun.User{{Name: "alice", Pass: "pw"}}},
+		{Enabled: true, Users: []socksrun.User{{Name: "alice", Pass: "pw"}}},
+		{Enabled: true, Users: []socksrun.User{{Name: "alice", Hash: hAlice}}},
+		{Enabled: true, Users: []socksrun.User{{Name: "alice", Pass: "pw"}, {Name: "bob", Hash: hBob}}},              // plaintext user dropped: a hashed user exists
+		{Enabled: true, Users: []socksrun.User{{Name: "alice", Pass: "pw", Hash: hAlice}, {Name: "ghost"}}},          // hash wins over password
+		{Enabled: true, Users: []socksrun.User{{Name: "alice", Pass: "one"}, {Name: "alice", Pass: "two"}}},          // duplicate name: last wins
+		{Enabled: true, Users: []socksrun.User{{Name: "alice", Hash: hAlice}, {Name: "alice", Pass: "later-plain"}}}, // hashed map wins
+		{Enabled: true, Users: []socksrun.User{{Name: "Alice", Pass: "pw"}, {Name: "alice ", Pass: "pw2"}, {Name: "al\x00ice", Pass: "x"}}},
 	}
 	_ = r
 	return fixed
 }
 
-func validFor(ac AuthCfg, cs []socksrun.Cred) []socksrun.Cred {
+func validFor(ac socksrun.AuthCfg, cs []socksrun.Cred) []socksrun.Cred {
 	var out []socksrun.Cred
 	for _, c := range cs {
-		if matches(ac, c.User, c.Pass) {
+		if ac.Matches(c.User, c.Pass) {
 			out = append(out, c)
 		}
 	}
 	return out
 }
 
-func credsFor(ac AuthCfg, r *vh.Rand) []socksrun.Cred {
+func credsFor(ac socksrun.AuthCfg, r *vh.Rand) []socksrun.Cred {
 	var cs []socksrun.Cred
 	add := func(u, p string) { cs = append(cs, socksrun.Cred{User: []byte(u), Pass: []byte(p)}) }
 	for _, u := range ac.Users {
@@ -573,5 +436,4 @@ func TestVerif(t *testing.T) {
 	sb.WriteString("Definition wcases : list wcase := \n" + policy.CoqListNL(h.wcoq) + ".\n")
 	sb.WriteString("Definition Mws := Eval vm_compute in wmismatches wcases.\nPrint Mws.\n")
 	c.WriteCasesV("cases.v", sb.String())
-	_ = bytes.Equal
 }
